@@ -130,12 +130,16 @@ def _run_tuple(case):
         case["impl"] = rows
         if _has_foreign(rows):
             side["delivered_payloads_are_stored_or_fresh_default"] = False
+        _fresh_distinct(side)
     except Exception as e:
         case["impl"] = []
         side["no_exception:" + H.err_class(e)] = False
     side["operands_unchanged"] = before == (H.snapshot(fa), H.snapshot(fb))
     case["side"] = side
     return case
+
+
+FRESH = []      # the fresh defaults delivered while the current case runs (kept alive so that ids stay unique)
 
 
 def _ref(fiber, p, dflt, leaf=None):
@@ -146,12 +150,24 @@ def _ref(fiber, p, dflt, leaf=None):
         return i
     Fiber, Payload = H.ft().Fiber, H.ft().Payload
     if isinstance(p, Fiber):
-        return -1 if (len(p.coords) == 0 and leaf is not True) else -2
+        if len(p.coords) == 0 and leaf is not True:
+            FRESH.append(p)
+            return -1
+        return -2
     if leaf is False:
         return -2
     if isinstance(p, Payload) and p.value == dflt:
+        FRESH.append(p)
         return -1
     return -2
+
+
+def _fresh_distinct(side):
+    """every default delivered for an absent side is a NEW object (an update through one of them must not
+    show up at another coordinate)"""
+    if len({id(x) for x in FRESH}) != len(FRESH):
+        side["fresh_defaults_are_distinct_objects"] = False
+    del FRESH[:]
 
 
 def _ranks(t):
@@ -198,6 +214,7 @@ def _run_nary(case):
         case["impl"] = rows
         if _has_foreign(rows):
             side["delivered_payloads_are_stored_or_fresh_default"] = False
+        _fresh_distinct(side)
     except Exception as e:
         case["impl"] = []
         side["no_exception:" + H.err_class(e)] = False
@@ -209,6 +226,7 @@ def _run_nary(case):
 
 
 def run(case):
+    del FRESH[:]
     ft = H.ft()
     if "ops" in case:
         return _run_nary(case)
@@ -256,6 +274,7 @@ def run(case):
         case["impl"] = rows
         if _has_foreign(rows):
             side["delivered_payloads_are_stored_or_fresh_default"] = False
+        _fresh_distinct(side)
     except Exception as e:  # a crash on a legal input is an observation
         case["impl"] = []
         case["implerr"] = H.err_class(e)
